@@ -35,7 +35,8 @@ Theorem C03_jsight_must_be_first :
   forall read_body banned fuel d rest,
     N.eqb (d_kind d) DirectiveTables.dir_Jsight = false ->
     forall c0, collect_tags empty_catalog (d :: rest) = COk c0 ->
-    type_without_body (d :: rest) = None ->
+    dup_type_error [] (d :: rest) = None ->
+  type_without_body (d :: rest) = None ->
     (exists x, collect_paths fuel (d :: rest) [] None = inl x) ->
     missed_path_errors (d :: rest) = None ->
     exists e, build_catalog read_body banned fuel (d :: rest) = CErr e /\
